@@ -121,8 +121,8 @@ static void followup(varintBitmap *vb, bitset *m) {
 }
 
 /* build a bitmap of a given container kind (fault-free part of a scenario) */
-enum { MK_EMPTY, MK_ARRAY_SMALL, MK_ARRAY_FULLCAP, MK_ARRAY_4096, MK_BITMAP_4097, MK_BITMAP_5000, MK_RUNS_5000, MK_RUNS_4096, MK_ARRAY_4095_ODD, MK_BITMAP_4096, MK_RUNS_CLEARED };
-static const char *MKN[] = {"empty", "array{1,5,9}", "array of 16 (capacity full)", "array of 4096", "bitmap of 4097", "bitmap of 5000", "runs [100,5100)", "runs [0,4097)-style", "array of 4095 odd", "dense container holding exactly 4096", "run container after clear (no runs)"};
+enum { MK_EMPTY, MK_ARRAY_SMALL, MK_ARRAY_FULLCAP, MK_ARRAY_4096, MK_BITMAP_4097, MK_BITMAP_5000, MK_RUNS_5000, MK_RUNS_4096, MK_ARRAY_4095_ODD, MK_BITMAP_4096, MK_RUNS_CLEARED, MK_ARRAY_150, MK_ARRAY_SHRUNK };
+static const char *MKN[] = {"empty", "array{1,5,9}", "array of 16 (capacity full)", "array of 4096", "bitmap of 4097", "bitmap of 5000", "runs [100,5100)", "runs [0,4097)-style", "array of 4095 odd", "dense container holding exactly 4096", "run container after clear (no runs)", "array of 150 (capacity 256)", "array of 20 left after 300 were added and 280 removed"};
 static varintBitmap *mk(int kind, bitset *m) {
     varintBitmap *vb = varintBitmapCreate();
     memset(m, 0, sizeof *m);
@@ -173,6 +173,23 @@ static varintBitmap *mk(int kind, bitset *m) {
     case MK_RUNS_CLEARED:
         varintBitmapAddRange(vb, 100, 5100);
         varintBitmapClear(vb);
+        break;
+    case MK_ARRAY_150:
+        for (uint32_t i = 0; i < 150; i++) {
+            varintBitmapAdd(vb, (uint16_t)(i * 11 + 3));
+            bs_set(m, i * 11 + 3);
+        }
+        break;
+    case MK_ARRAY_SHRUNK:
+        for (uint32_t i = 0; i < 300; i++) {
+            varintBitmapAdd(vb, (uint16_t)(i * 5));
+        }
+        for (uint32_t i = 20; i < 300; i++) {
+            varintBitmapRemove(vb, (uint16_t)(i * 5));
+        }
+        for (uint32_t i = 0; i < 20; i++) {
+            bs_set(m, i * 5);
+        }
         break;
     case MK_BITMAP_5000:
         for (uint32_t i = 0; i < 5000; i++) {
@@ -594,7 +611,7 @@ static void scn_adaptive(int which, int vk) {
 }
 
 /* unary bitmap operations under fault */
-enum { B_CREATE, B_CLONE, B_ADD, B_REMOVE, B_ADDRANGE_SMALL, B_ADDRANGE_LARGE, B_ADDMANY, B_REMOVERANGE, B_DECODE, B_ENCODE_ROUNDTRIP };
+enum { B_CREATE, B_CLONE, B_ADD, B_REMOVE, B_ADDRANGE_SMALL, B_ADDRANGE_LARGE, B_ADDMANY, B_REMOVERANGE, B_DECODE, B_ENCODE_ROUNDTRIP, B_OPTIMIZE, B_CLEAR, B_READONLY };
 static void scn_bitmap_unary(int op, int kind, uint32_t arg) {
     static bitset pre, post, obs;
     char why[160];
@@ -679,6 +696,32 @@ static void scn_bitmap_unary(int op, int kind, uint32_t arg) {
         varintBitmapRemoveRange(vb, (uint16_t)arg, (uint16_t)(arg + 3000));
         FAULT_END();
         break;
+    case B_OPTIMIZE: /* never changes the set; allocates nothing today - a version that does must survive a failure */
+        FAULT_BEGIN();
+        varintBitmapOptimize(vb);
+        FAULT_END();
+        break;
+    case B_CLEAR:
+        memset(&post, 0, sizeof post);
+        FAULT_BEGIN();
+        varintBitmapClear(vb);
+        FAULT_END();
+        break;
+    case B_READONLY: { /* the observers and the serialiser, under fault */
+        static uint16_t arr[U + 8];
+        varintBitmapStats st;
+        memset(&st, 0, sizeof st);
+        FAULT_BEGIN();
+        uint32_t n = varintBitmapToArray(vb, arr);
+        varintBitmapGetStats(vb, &st);
+        size_t len = varintBitmapEncode(vb, ENC);
+        (void)varintBitmapSizeBytes(vb);
+        FAULT_END();
+        if (n != bs_card(&pre) || st.cardinality != bs_card(&pre) || len < 5) {
+            FFAIL("wrong_success", "ToArray returned %u, GetStats cardinality %u, Encode %zu bytes for a set of %u", n, st.cardinality, len, bs_card(&pre));
+        }
+        break;
+    }
     case B_DECODE: {
         size_t len = varintBitmapEncode(vb, ENC);
         FAULT_BEGIN();
@@ -826,6 +869,14 @@ static void build_scenarios(void) {
         }
     }
     add_sc("bitmap.Create", 4, B_CREATE, 0, 0);
+    /* entry points that allocate nothing in the unchanged library are scenarios too (N = 0 today: the fault-free run
+     * is the whole exploration; a version that starts allocating gets every one of its allocations failed) */
+    static const int kindsO[8] = {MK_EMPTY, MK_ARRAY_SMALL, MK_ARRAY_150, MK_ARRAY_SHRUNK, MK_ARRAY_4096, MK_BITMAP_5000, MK_RUNS_5000, MK_RUNS_CLEARED};
+    for (int i = 0; i < 8; i++) {
+        add_sc("bitmap.Optimize", 4, B_OPTIMIZE, kindsO[i], 0);
+        add_sc("bitmap.Clear", 4, B_CLEAR, kindsO[i], 0);
+        add_sc("bitmap.ToArray/GetStats/Encode", 4, B_READONLY, kindsO[i], 0);
+    }
     static const int kinds3[3] = {MK_ARRAY_SMALL, MK_BITMAP_5000, MK_RUNS_5000};
     for (int i = 0; i < 3; i++) {
         add_sc("bitmap.Clone", 4, B_CLONE, kinds3[i], 0);
